@@ -166,9 +166,12 @@ class C01:
             else:
                 cfg = CONFIGS[j % len(CONFIGS)]
                 j += 1
-            cases.append({'points': pts, 'family': fam, 'dist': cfg[0], 'cost': cfg[1], 'order': cfg[2],
-                          'k': i % (n + 2), 'm': (i // 3) % (n + 2),
-                          't_mode': ['obs', 'obs_up', 'glob', 'obs_dn', 'grid', 'glob'][i % 6], 't_seed': rng.randrange(1 << 30)})
+            # thorough: every configuration on a part of the small-n stratum
+            cfgs = CONFIGS if (tier == 'thorough' and n <= 6 and i % 25 == 0) else [cfg]
+            for cf in cfgs:
+                cases.append({'points': pts, 'family': fam, 'dist': cf[0], 'cost': cf[1], 'order': cf[2],
+                              'k': i % (n + 2), 'm': (i // 3) % (n + 2),
+                              't_mode': ['obs', 'obs_up', 'glob', 'obs_dn', 'grid', 'glob'][i % 6], 't_seed': rng.randrange(1 << 30)})
         return cases
 
     def warmup(self):
